@@ -66,7 +66,7 @@ def case_literal(cfgd, mat, bare, text, raised, dwell):
         cn(raised), cq(frac(dwell))))
 
 
-def lattice_matrix(rng, n):
+def lattice_matrix(rng, n, digits=None):
     """random walk on a small lattice: repeats, pure feed changes, pure shutter changes and coincident changes"""
     xs = [k / 8 for k in range(-16, 17)]
     feeds = [0.5, 1.0, 2.0, 5.0, 20.0]
@@ -85,7 +85,14 @@ def lattice_matrix(rng, n):
         if k & 4:
             s = 1 - s
         rows.append((x, y, z, f, s))
-    return np.array(rows, dtype=np.float32).T
+    m = np.array(rows, dtype=np.float32)
+    if digits is not None and rng.random() < 0.35:
+        # coordinates around the printing resolution: 0.3, 0.7, 1.2 ... units of the last printed decimal
+        u = 10.0 ** (-digits)
+        for _ in range(rng.randint(1, 3)):
+            i, j = rng.randrange(len(rows)), rng.randrange(3)
+            m[i, j] = rng.choice([0.3, 0.7, -0.7, 0.97, 1.2, -1.6, 2.7]) * u + rng.choice([0.0, 0.0, m[i, j]])
+    return m.T
 
 
 def pattern_matrices(maxlen):
@@ -126,7 +133,7 @@ def gen_cases(rng, tier):
     for _ in range(260 if quick else 4000):
         n = rng.choice([1, 2, 3, 5, 8, 13, 30, 60])
         cfgd = pgm.gen_cfg(rng)
-        yield 'lattice', cfgd, lattice_matrix(rng, n), rng.random() < 0.6, None
+        yield 'lattice', cfgd, lattice_matrix(rng, n, cfgd.get('output_digits', 6)), rng.random() < 0.6, None
     for _ in range(120 if quick else 2500):
         param, calls = builders.gen_wg_calls(rng)
         try:
@@ -188,12 +195,15 @@ def run(rep: common.Report, tier: str, seed: int):
         hist['raised'] += 1 if raised else 0
         hist['bare'] += 1 if bare else 0
     fails = common.run_model('C01', 'Harness.C01', 'C01.case', 'C01.failing', lits, shard=60, extra_imports=IMPORTS)
-    names = ['written', 'exception', 'tokens', 'dwell', 'replay']
+    names = ['written', 'exception', 'tokens', 'dwell', 'replay', 'accuracy']
     for idx, code in fails:
         which = [names[k] for k in range(len(names)) if code >> k & 1]
         c = cases[idx]
         if 'replay' in which:
             rep.violation('C01/replay/' + c['stream'], 'the emitted program does not replay the point matrix', {'input': c, 'failed': which})
+        elif 'accuracy' in which:
+            rep.violation('C01/accuracy/' + c['stream'], 'a printed coordinate is farther than half a unit of the last decimal from '
+                          'the exact transformed path point', {'input': c, 'failed': which})
         else:
             # correspondence broke but the replay monitor accepts femto's file (or does not apply)
             rep.violation('C01/correspondence/' + '+'.join(which) + '/' + c['stream'],
